@@ -164,7 +164,7 @@ class Run:
             raise Inconclusive("empty trace " + trace)
         caseof = []
         for ln in lines:
-            m = re.search(r'"case":(\d+)', ln)
+            m = re.search(r'"case":\s*(\d+)', ln)
             caseof.append(int(m.group(1)) if m else -1)
         ncases = len(set(caseof))
         shards = shards or min(NCPU, max(1, total // 1500))
@@ -409,7 +409,7 @@ def selftest_corrupt(run, module, trace, mutate, cfg=None, name="corrupt one rec
     p = trace + ".selftest"
     with open(p, "w") as f:
         for e in new:
-            f.write(json.dumps(e) + "\n")
+            f.write(json.dumps(e, separators=(",", ":")) + "\n")
     r = run.tlc_trace(module, p, cfg=cfg, shards=1, record=False)
     os.unlink(p)
     ok = len(r["failed"]) > 0
